@@ -628,7 +628,7 @@ func (e *Engine) instrWrites(fc *FnCtx, in ssa.Instruction, ns *NameSet) {}
 func (e *Engine) contractFiles() map[string]string {
 	return map[string]string{
 		"sftp":     filepath.Join(e.repo, "verif_contracts.go"),
-		"filexfer": filepath.Join(e.repo, "internal/encoding/ssh/filexfer/verif_contracts.go"),
+		"sshfx":    filepath.Join(e.repo, "internal/encoding/ssh/filexfer/verif_contracts.go"),
 		"openssh":  filepath.Join(e.repo, "internal/encoding/ssh/filexfer/openssh/verif_contracts.go"),
 	}
 }
